@@ -121,6 +121,10 @@ pub fn run(stim: &Value, rec: &Rec) {
             match (stim["roots"].as_str().unwrap_or("right"), stim["roots_form"].as_str().unwrap_or("single")) {
                 ("right", "bundle_last") => { t = t.ca_certificate(Certificate::from_pem(cat("ca_b.pem", "ca_a.pem"))); }
                 ("right", "bundle_first") => { t = t.ca_certificate(Certificate::from_pem(cat("ca_a.pem", "ca_b.pem"))); }
+                // list_*: several roots given one by one (ca_certificates / repeated ca_certificate)
+                ("right", "list_last") => { t = t.ca_certificates(vec![Certificate::from_pem(pem("ca_b.pem")), Certificate::from_pem(pem("ca_a.pem"))]); }
+                ("right", "list_first") => { t = t.ca_certificate(Certificate::from_pem(pem("ca_a.pem"))).ca_certificate(Certificate::from_pem(pem("ca_b.pem"))); }
+                ("other", "list_last") | ("other", "list_first") => { t = t.ca_certificates(vec![Certificate::from_pem(pem("ca_b.pem")), Certificate::from_pem(pem("ca_c.pem"))]); }
                 ("right", _) => { t = t.ca_certificate(Certificate::from_pem(pem("ca_a.pem"))); }
                 ("other", "bundle_last") | ("other", "bundle_first") => { t = t.ca_certificate(Certificate::from_pem(cat("ca_b.pem", "ca_c.pem"))); }
                 ("other", _) => { t = t.ca_certificate(Certificate::from_pem(pem("ca_b.pem"))); }
